@@ -18,8 +18,12 @@ RULE = (
     "distinct = distinct (tree, verdicts) digests"
 )
 
-IT_EXTRA = (("chain", ("D0",)), ("chain", ("Eloose",)), ("chain", ("L",)), ("chain", ("L",), True))
+IT_EXTRA = (
+    ("sel", ("in_range", ("ref", "a"), (3, 0, -1))),("chain", ("D0",)), ("chain", ("Eloose",)), ("chain", ("L",)), ("chain", ("L",), True))
 SQL_EXTRA = (
+    ("join", ("K", ("proj", ("d",))), ("gt", ("ref", "d"), ("lit", 100)), False),
+    ("join", ("K", ("proj", ("d",))), None, False),
+    ("sel", ("in_range", ("ref", "a"), (3, 0, -1))),
     ("chain", ("X",)),
     ("chain", ("X",), True),
     ("chain", ("D0",)),
